@@ -821,6 +821,9 @@ func (interp *Interpreter) cfg(root *node, sc *scope, importPath, pkgName string
 					dest.gen = nop
 				case isFuncField(dest):
 					// Setting a struct field of function type requires an extra step. Do not optimize.
+				case n.nleft > 1 && (isCall(src) || src.action == aRecv || src.action == aCompositeLit):
+					// Do not skip assign operation in a multiple assignment: all the operands on the right
+					// are evaluated before any assignment, and the other assignments must still be performed.
 				case isCall(src) && !isInterfaceSrc(dest.typ) && n.kind != defineStmt:
 					// Call action may perform the assignment directly.
 					if dest.typ.id() != src.typ.id() {
